@@ -447,7 +447,7 @@ def check(prop, tier, run: Run, replay_case=None):
     if tier == "thorough":
         mm = run.notes.setdefault("mutant_models", {})
         for sw in ("SharedGraphDefault", "MutatesModel", "LoadKeepsCache", "MutatesNested"):
-            r = _tlc("ServiceHistory.tla", dict(consts, DoEmit=False, MaxOps=3, **{sw: True}), INVS, PROPS_T)
+            r = _tlc("ServiceHistory.tla", dict(consts, DoEmit=False, MaxOps=4, **{sw: True}), INVS, PROPS_T)
             mm[sw] = r.violated
             if not r.violated:
                 run.machinery_errors.append(f"mutant model {sw} not rejected")
